@@ -1,654 +1,4 @@
-(* Link_Properties: the cross-model links.  Only statements, closed by [exact], each followed by
-   Print Assumptions, and non-vacuity examples.
-
-   Each property of the framework has its own model; where one model abstracts what another makes
-   concrete, the justification used to be prose ("abstract view justified by C10").  The theorems
-   below make those justifications machine-checked.  They rest on the component models only
-   (Conn_Model / C10_Model / ...), which are tied to the C++ by their own checks (bin/check C01,
-   C10, ...): no new tie to /repo is introduced here, only the composition is new.
-
-   L1  Connection over Buffer: Conn_Model (C01/C02/C03/C11/C13) over two C10 Buffers.
-   L2  One EventLoop iteration over its parts: C09's iteration, C04's functor queue / wake-up
-       protocol, C06's TimerQueue.
-   L3  Codec over connection: C18's stream decoder as the message callback of C01's connection. *)
-From Coq Require Import List ZArith Lia Bool Arith NArith.
-From Coq.Strings Require Import Byte.
-From Muduo Require C10_Model C10_Proofs.
-From Muduo Require Gen_C04 C09_Witness.
-From Muduo Require Import Link_LoopQueue Link_LoopTimer.
-From Muduo Require C18_Model.
-From Muduo Require Import Link_CodecConn.
-From Muduo Require Import Conn_Model Conn_Proofs Conn_Trace Link_ConnBuf_Model Link_ConnBuf.
-Import ListNotations.
-
-(* ========================================================================================== *)
-(* L1. TcpConnection over its two Buffers                                                       *)
-(* ========================================================================================== *)
-(* Concrete machine (Link_ConnBuf_Model): state = (ctl, obuf, ibuf); ctl = the control fields of
-   Conn_Model (its outb / inb fields dead), obuf / ibuf = C10_Model.buf (vector, readerIndex_,
-   writerIndex_).  c_step performs exactly the Buffer calls of TcpConnection.cc (sendInLoop:
-   readableBytes / append(data+nwrote, remaining); handleWrite: peek+readableBytes / retrieve(n) /
-   readableBytes; handleRead: readFd, branches on its return value; the message callback's
-   retrieve(n) / retrieveAll()); a call C10 does not accept makes the step Fault.
-   abs forgets vector and indices: outb := readable obuf, inb := readable ibuf.
-   bufs_ok c := both buffers are reachable Buffer states (C10_Proofs.reach).
-   abs_op c o := the Conn_Model op a concrete op amounts to (CRead (KData avail) is
-   EvReadData (first readFd_capacity bytes of avail), or EvReadEOF when that is empty).        *)
-
-(* HEADLINE (refinement, concrete => abstract): whatever the concrete connection does in one
-   step, Conn_Model does on the abstraction - same result kind, same events - and both buffers
-   remain reachable Buffer states. *)
-Theorem L1_conn_refines_over_buffers : forall c o, bufs_ok c -> cop_wf o = true ->
-  match c_step c o with
-  | Ok (c', e) => step (abs c) (abs_op c o) = Ok (abs c', e) /\ bufs_ok c'
-  | Rejected => step (abs c) (abs_op c o) = Rejected
-  | Fault => step (abs c) (abs_op c o) = Fault
-  end.
-Proof. exact c_step_refines. Qed.
-Print Assumptions L1_conn_refines_over_buffers.
-
-(* the relation of the design text, spelled out *)
-Theorem L1_relation_def : forall a c, R a c <->
-  (B.readable (obuf c) = outb a /\ B.readable (ibuf c) = inb a /\
-   BP.reach (obuf c, ibuf c) (outb a, inb a) /\
-   st a = st (ctl c) /\ writing a = writing (ctl c) /\ rd_chan a = rd_chan (ctl c) /\
-   rd_flag a = rd_flag (ctl c) /\ registered a = registered (ctl c) /\ hwm a = hwm (ctl c) /\
-   has_wc a = has_wc (ctl c) /\ has_hwm a = has_hwm (ctl c) /\ wire a = wire (ctl c) /\
-   fin a = fin (ctl c) /\ pending a = pending (ctl c) /\ chk a = chk (ctl c) /\
-   delayed a = delayed (ctl c) /\ accepted a = accepted (ctl c) /\ consumed a = consumed (ctl c) /\
-   delivered a = delivered (ctl c) /\ enq a = enq (ctl c) /\ ran a = ran (ctl c) /\
-   ups a = ups (ctl c) /\ downs a = downs (ctl c)).
-Proof. exact R_spelled. Qed.
-Print Assumptions L1_relation_def.
-
-(* HEADLINE (simulation, abstract => concrete): every accepted Conn_Model step from a state
-   related to a concrete state is performed by the concrete machine: every Buffer call it makes
-   is accepted by C10's guards (the step is Ok, neither Rejected nor Fault), the events are the
-   same and the relation is re-established.  Side condition [fits]: an EvReadData d must fit into
-   what readFd offers to readv (length d <= readFd_capacity inputBuffer_); Conn_Model allows any
-   d, i.e. over-approximates the environment there. *)
-Theorem L1_conn_simulated_over_buffers : forall a c o a' e, R a c -> fits c o = true ->
-  step a o = Ok (a', e) ->
-  exists c', c_step c (conc_op o) = Ok (c', e) /\ R a' c'.
-Proof. exact c_step_simulates. Qed.
-Print Assumptions L1_conn_simulated_over_buffers.
-
-Theorem L1_refines_R : forall a c o, R a c -> cop_wf o = true ->
-  match c_step c o with
-  | Ok (c', e) => exists a', step a (abs_op c o) = Ok (a', e) /\ R a' c'
-  | Rejected => step a (abs_op c o) = Rejected
-  | Fault => step a (abs_op c o) = Fault
-  end.
-Proof. exact c_step_refines_R. Qed.
-Print Assumptions L1_refines_R.
-
-(* whole histories *)
-Theorem L1_run_refines : forall ops c, bufs_ok c -> forallb cop_wf ops = true ->
-  match c_run c ops with
-  | Ok (c', e) => run (abs c) (abs_ops c ops) = Ok (abs c', e) /\ bufs_ok c'
-  | Rejected => run (abs c) (abs_ops c ops) = Rejected
-  | Fault => run (abs c) (abs_ops c ops) = Fault
-  end.
-Proof. exact c_run_refines. Qed.
-Print Assumptions L1_run_refines.
-
-(* TcpConnection never violates a precondition of Buffer (and no assert of TcpConnection.cc
-   fires): no history of the concrete connection faults.  By construction of c_step, Fault is
-   the result of any Buffer call of sendInLoop / handleWrite / handleRead that C10 rejects
-   (documented precondition) or faults (bounds / internal assert). *)
-Theorem L1_no_buffer_precondition_violated : forall mark wc hw ops, forallb cop_wf ops = true ->
-  c_run (c_init mark wc hw) ops <> Fault.
-Proof. exact c_run_no_fault. Qed.
-Print Assumptions L1_no_buffer_precondition_violated.
-
-(* the two Buffer calls with a precondition / internal assertion, individually *)
-Theorem L1_sendInLoop_append_accepted : forall c d k, bufs_ok c ->
-  exists c', c_sendInLoop c d k = Ok (c', snd (sendInLoop (abs c) d k)) /\
-             abs c' = fst (sendInLoop (abs c) d k) /\ bufs_ok c'.
-Proof. exact c_sendInLoop_ok. Qed.
-Print Assumptions L1_sendInLoop_append_accepted.
-
-Theorem L1_handleWrite_retrieve_accepted : forall c k, bufs_ok c ->
-  exists c', c_handleWrite c k = Ok (c', snd (handleWrite (abs c) k)) /\
-             abs c' = fst (handleWrite (abs c) k) /\ bufs_ok c'.
-Proof. exact c_handleWrite_ok. Qed.
-Print Assumptions L1_handleWrite_retrieve_accepted.
-
-(* THE TRANSFER PRINCIPLE: every theorem about the reachable states of Conn_Model is a theorem
-   about the readable contents of the two Buffers of every reachable concrete state
-   (outb (abs c) = B.readable (obuf c), inb (abs c) = B.readable (ibuf c): L1_abs_fields), and
-   the buffers are reachable Buffer states, so every C10 theorem applies to them. *)
-Theorem L1_transfer : forall P : conn -> Prop,
-  (forall a, reach a -> P a) -> forall c, c_reach c -> P (abs c).
-Proof. exact transfer. Qed.
-Print Assumptions L1_transfer.
-
-Theorem L1_abs_fields : forall c,
-  outb (abs c) = B.readable (obuf c) /\ inb (abs c) = B.readable (ibuf c) /\
-  wire (abs c) = wire (ctl c) /\ st (abs c) = st (ctl c) /\ writing (abs c) = writing (ctl c) /\
-  consumed (abs c) = consumed (ctl c) /\ delivered (abs c) = delivered (ctl c) /\
-  accepted (abs c) = accepted (ctl c) /\ pending (abs c) = pending (ctl c) /\ fin (abs c) = fin (ctl c).
-Proof. exact abs_fields. Qed.
-Print Assumptions L1_abs_fields.
-
-Theorem L1_reachable_buffers : forall c, c_reach c ->
-  exists lo li, BP.reach (obuf c, ibuf c) (lo, li).
-Proof. exact c_reach_buffers. Qed.
-Print Assumptions L1_reachable_buffers.
-
-Theorem L1_run_reaches : forall ops c c' e, c_reach c -> forallb cop_wf ops = true ->
-  c_run c ops = Ok (c', e) -> c_reach c'.
-Proof. exact c_run_reach. Qed.
-Print Assumptions L1_run_reaches.
-
-(* instances.  C01_outbound_stream_trace on the real buffer: for every history, what the peer
-   read followed by the readable bytes of outputBuffer_ is the in-order concatenation of the
-   blocks of the history's sendInLoops *)
-Theorem L1_outbound_stream_on_buffer : forall mark wc hw ops c e, forallb cop_wf ops = true ->
-  c_run (c_init mark wc hw) ops = Ok (c, e) ->
-  wire (ctl c) ++ B.readable (obuf c) =
-  flat_map step_block (trace (init mark wc hw) (abs_ops (c_init mark wc hw) ops)).
-Proof. exact c_outbound_stream. Qed.
-Print Assumptions L1_outbound_stream_on_buffer.
-
-(* C01_inbound_stream_trace on the real buffer: what the user retrieved followed by the readable
-   bytes of inputBuffer_ is the concatenation, over the handleReads of the history, of what
-   readFd delivered; one message callback per non-empty delivery *)
-Theorem L1_inbound_stream_on_buffer : forall mark wc hw ops c e, forallb cop_wf ops = true ->
-  c_run (c_init mark wc hw) ops = Ok (c, e) ->
-  consumed (ctl c) ++ B.readable (ibuf c) = c_reads (c_init mark wc hw) ops /\
-  length (filter is_msg e) = c_nreads (c_init mark wc hw) ops.
-Proof. exact c_inbound_stream. Qed.
-Print Assumptions L1_inbound_stream_on_buffer.
-
-Theorem L1_c_reads_def : forall c ops,
-  c_reads c ops = match ops with
-                  | [] => []
-                  | o :: rest =>
-                      (match o with CRead k => B.delivered (B.readFd_capacity (ibuf c)) k | _ => [] end)
-                      ++ match c_step c o with Ok (c', _) => c_reads c' rest | _ => [] end
-                  end.
-Proof. intros c [|o rest]; reflexivity. Qed.
-Print Assumptions L1_c_reads_def.
-
-(* one handleRead: readFd's extrabuf path.  Exactly min(available, capacity) bytes are appended to
-   inputBuffer_, capacity = writable + sizeof extrabuf when writable < sizeof extrabuf (65536),
-   = writable otherwise; the output buffer is untouched; the callback sees the whole input *)
-Theorem L1_handleRead_delivers : forall c avail, bufs_ok c ->
-  rd_chan (ctl c) && registered (ctl c) = true ->
-  let cap := B.readFd_capacity (ibuf c) in
-  let n := Nat.min (length avail) cap in
-  cap = (if B.writableBytes (ibuf c) <? B.kExtraBuf
-         then B.writableBytes (ibuf c) + B.kExtraBuf else B.writableBytes (ibuf c)) /\
-  (0 < n ->
-   exists c', c_step c (CRead (B.KData avail)) = Ok (c', [EvMsg (length (B.readable (ibuf c)) + n)]) /\
-              B.readable (ibuf c') = B.readable (ibuf c) ++ firstn n avail /\
-              B.readable (obuf c') = B.readable (obuf c) /\
-              delivered (ctl c') = delivered (ctl c) ++ firstn n avail).
-Proof. exact c_handleRead_delivers. Qed.
-Print Assumptions L1_handleRead_delivers.
-
-(* C01_write_interest_iff_backlog on the real buffer *)
-Theorem L1_write_interest_iff_buffer_nonempty : forall c, c_reach c ->
-  st (ctl c) = Connected \/ st (ctl c) = Disconnecting ->
-  (writing (ctl c) = true <-> B.readableBytes (obuf c) <> 0).
-Proof. exact c_write_interest. Qed.
-Print Assumptions L1_write_interest_iff_buffer_nonempty.
-
-(* the outb / inb fields of the control part are dead: they do not influence what the concrete
-   machine does, and they stay empty *)
-Theorem L1_dead_fields : forall a ob ib x y o, bufs_ok (mkCC a ob ib) -> cop_wf o = true ->
-  match c_step (mkCC a ob ib) o, c_step (mkCC (with_bufs a x y) ob ib) o with
-  | Ok (c1, e1), Ok (c2, e2) => abs c1 = abs c2 /\ e1 = e2
-  | Rejected, Rejected => True
-  | Fault, Fault => True
-  | _, _ => False
-  end.
-Proof. exact c_step_dead_fields. Qed.
-Print Assumptions L1_dead_fields.
-
-Theorem L1_dead_fields_empty : forall c, c_reach c -> outb (ctl c) = [] /\ inb (ctl c) = [].
-Proof. exact c_reach_blank. Qed.
-Print Assumptions L1_dead_fields_empty.
-
-(* ---- non-vacuity -------------------------------------------------------------------------- *)
-Definition l1_a : byte := "a"%byte.
-
-(* a history with a partial direct write, a queued remainder drained by handleWrite, a foreign
-   send through the functor queue, reads, both retrieve forms and the end of file *)
-Definition l1_ops : list cop :=
-  [ COp Establish;
-    COp (Send [l1_a; l1_a; l1_a] (Accept 1));
-    COp (FSendCheck 7); COp (FSendEnq 7 [l1_a; l1_a]); COp (RunOne AcceptAll);
-    COp (EvWritable (Accept 3)); COp (EvWritable AcceptAll);
-    CRead (B.KData [l1_a; l1_a; l1_a; l1_a]); COp (Retrieve 1); CRead (B.KErr 11%Z);
-    CRead (B.KData [l1_a]); CRetrieveAll;
-    COp Shutdown; CRead (B.KData []) ].
-
-Example l1_ex_run :
-  match c_run (c_init 100 true true) l1_ops with
-  | Ok (c, e) =>
-      length (wire (ctl c)) = 5 /\ B.readable (obuf c) = [] /\ B.readable (ibuf c) = [] /\
-      length (consumed (ctl c)) = 5 /\ st (ctl c) = Disconnected /\
-      e = [EvUp; EvMsg 4; EvErrorLogged; EvMsg 4; EvFin; EvDown]
-  | _ => False
-  end.
-Proof. vm_compute. repeat split; reflexivity. Qed.
-
-Example l1_ex_run_ok :
-  exists c e, c_run (c_init 100 true true) l1_ops = Ok (c, e) /\ forallb cop_wf l1_ops = true /\
-              length (wire (ctl c)) = 5 /\ length (consumed (ctl c)) = 5 /\ st (ctl c) = Disconnected.
-Proof.
-  destruct (c_run (c_init 100 true true) l1_ops) as [[c e]| |] eqn:E; try (vm_compute in E; discriminate).
-  exists c, e. split; [reflexivity|]. vm_compute in E. injection E as <- <-. vm_compute. auto.
-Qed.
-
-(* the extrabuf path: a fresh input buffer has 1024 writable bytes, so one handleRead of a
-   descriptor holding 70000 bytes delivers 1024 + 65536 = 66560 of them *)
-Example l1_ex_spill :
-  match c_run (c_init 100 false false)
-              [COp Establish; CRead (B.KData (repeat l1_a (Z.to_nat 70000)))] with
-  | Ok (c, e) => (B.readableBytes (ibuf c) =? Z.to_nat 66560) && (length e =? 2)
-  | _ => false
-  end = true.
-Proof. vm_compute. reflexivity. Qed.
-
-(* the hypotheses of the simulation theorem are inhabited: the initial states are related *)
-Example l1_ex_R : R (init 100 true true) (c_init 100 true true).
-Proof. rewrite <- abs_c_init. apply R_abs. apply c_init_ok. Qed.
-
-(* a user's retrieve beyond readableBytes() is rejected (the user's violation, not the library's) *)
-Example l1_ex_user_violation :
-  c_run (c_init 100 false false) [COp Establish; CRead (B.KData [l1_a]); COp (Retrieve 2)] = Rejected.
-Proof. vm_compute. reflexivity. Qed.
-
-(* ========================================================================================== *)
-(* L2. One EventLoop iteration (C09) over the functor queue (C04) and the TimerQueue (C06)      *)
-(* ========================================================================================== *)
-(* Module names: L = C04_Model, LP = C04_Proofs, P = C09_Model, PQ = C09_Proofs,
-   PL = C09_ProofsPoll, PP = C09_ProofsLoop, T = C06_Model, TH = C06_Hist.                       *)
-
-(* ---- L2a: the queue / wake-up part of C09's iteration and C04's micro-step system ---------- *)
-(* the queue view of ANY successful C09 iteration (any back-end S/step, channels, callbacks,
-   Channel-API calls): the batch is the queue at poll time followed by what the callbacks queued,
-   the left-over queue is what the batch queued, the wake-up counter is what the callbacks'
-   effects left plus one per functor queued where queueInLoop's guard says so *)
-Theorem L2a_iteration_queue_view :
-  forall S step h hq fb runs eff qw wfd tfd st e pending choice st' e' pend' act log ran,
-  P.loop_iter_full_env S step h hq fb runs eff qw wfd tfd st e pending choice
-    = P.Ok (st', e', pend', (act, log, ran)) ->
-  (ran, pend', P.k_wake e') =
-  q_iter qw fb (P.k_wake (P.apply_effects eff log e)) pending (flat_map (fun ck => hq (fst ck) (snd ck)) log).
-Proof. exact c09_iteration_queue_view. Qed.
-Print Assumptions L2a_iteration_queue_view.
-
-Theorem L2a_q_iter_def : forall qw fb w1 pending hqs,
-  q_iter qw fb w1 pending hqs =
-  (pending ++ hqs, P.functors_queued fb (pending ++ hqs),
-   (w1 + (if qw true false true then N.of_nat (length hqs) else 0)
-       + (if qw true true true then N.of_nat (length (P.functors_queued fb (pending ++ hqs))) else 0))%N).
-Proof. reflexivity. Qed.
-Print Assumptions L2a_q_iter_def.
-
-(* HEADLINE.  The queue behaviour C09 attributes to one iteration IS a schedule of C04's
-   transition system: from a C04 state related to C09's (environment, queue) pair - loop thread
-   about to poll, same wake-up counter, same queue - the loop thread alone (labels TLoop / TRead
-   only: steps L3..L7 of DESIGN B.2) reaches the end of its batch having run exactly C09's batch
-   [ran] in order, with C09's left-over queue and C09's wake-up counter.  Hence every state C09's
-   iteration view passes through is a reachable state of C04's system and C04's theorems (at most
-   once, FIFO, no lost wake-up, for ALL schedules) apply to it. *)
-Theorem L2a_iteration_is_loop_thread_schedule :
-  forall S step h hq fb runs eff wfd tfd sh scr q s st e pending choice st' e' pend' act log ran,
-  P.loop_iter_full_env S step h hq fb runs eff (L.wake sh) wfd tfd st e pending choice
-    = P.Ok (st', e', pend', (act, log, ran)) ->
-  Rq s e pending ->
-  pure_q scr q -> (forall i, In i ran -> snd (fb i) = q i) ->
-  flat_map (fun ck => hq (fst ck) (snd ck)) log = (match L.evq (L.sg s) with k :: _ => q k | [] => [] end) ->
-  L.poll_ready (L.sg s) = true ->
-  P.k_wake (P.apply_effects eff log e) = 0%N ->
-  exists labs s', loop_only labs /\ L.run sh scr s labs = Some s' /\
-    L.pc s' = L.LTest /\ L.lcode s' = [] /\
-    L.calling (L.sg s') = false /\ L.looping (L.sg s') = true /\
-    L.fcode s' = L.fcode s /\ L.lnext s' = L.lnext s /\ L.quit (L.sg s') = L.quit (L.sg s) /\
-    L.evq (L.sg s') = tl (L.evq (L.sg s)) /\
-    N.of_nat (L.evfd (L.sg s')) = P.k_wake e' /\
-    L.pending (L.sg s') = pend' /\
-    L.execq (L.log (L.sg s')) = L.execq (L.log (L.sg s)) ++ ran.
-Proof. exact c09_iteration_is_c04_schedule. Qed.
-Print Assumptions L2a_iteration_is_loop_thread_schedule.
-
-Theorem L2a_relation_def : forall s e p, Rq s e p <->
-  (L.pc s = L.LPoll /\ L.calling (L.sg s) = false /\ L.looping (L.sg s) = true /\
-   N.of_nat (L.evfd (L.sg s)) = P.k_wake e /\ L.pending (L.sg s) = p).
-Proof. intros s e p. split; [intros [A B C D E]; auto|intros (A & B & C & D & E); constructor; assumption]. Qed.
-Print Assumptions L2a_relation_def.
-
-(* the C04 side on its own: what the loop thread does from the poll to the end of the batch *)
-Theorem L2a_c04_iteration : forall sh scr q, pure_q scr q -> forall g c0 ln fc,
-  L.calling g = false -> L.looping g = true -> L.poll_ready g = true ->
-  let hqs := match L.evq g with k :: _ => q k | [] => [] end in
-  let w1 := L.wake sh true false true in
-  let w2 := L.wake sh true true true in
-  let ran := L.pending g ++ hqs in
-  let pend' := flat_map q ran in
-  exists labs, loop_only labs /\
-    L.run sh scr (L.mkSt g L.LPoll c0 ln fc) labs =
-    Some (L.mkSt (L.mkG pend' ((if w1 then length hqs else 0) + (if w2 then length pend' else 0))
-                        (tl (L.evq g)) (L.quit g) false true
-                        (L.log g ++ qlog w1 0 hqs ++ blog w2 q ran))
-                 L.LTest [] ln fc).
-Proof. exact c04_iteration. Qed.
-Print Assumptions L2a_c04_iteration.
-
-(* after the batch: test quit_, poll again; the relation is re-established *)
-Theorem L2a_next_poll : forall sh scr s e p,
-  L.pc s = L.LTest -> L.quit (L.sg s) = false -> L.calling (L.sg s) = false -> L.looping (L.sg s) = true ->
-  N.of_nat (L.evfd (L.sg s)) = P.k_wake e -> L.pending (L.sg s) = p ->
-  exists s', L.step sh scr s L.TLoop = Some s' /\ Rq s' e p /\ L.sg s' = L.sg s /\ L.fcode s' = L.fcode s.
-Proof. exact c04_test_to_poll. Qed.
-Print Assumptions L2a_next_poll.
-
-(* C09's external event XQueue i (a task queued from another thread between two iterations) is
-   the foreign thread's two micro-steps of C04 while the loop thread is in poll *)
-Theorem L2a_xqueue_is_foreign_microsteps : forall sh scr s e p i j rest,
-  Rq s e p -> nth_error (L.fcode s) j = Some (L.MQueue i :: rest) ->
-  exists s', L.run sh scr s [L.TF j; L.TF j] = Some s' /\
-    Rq s' (fst (P.apply_ext (L.wake sh) (e, p) (P.XQueue i))) (snd (P.apply_ext (L.wake sh) (e, p) (P.XQueue i))) /\
-    nth_error (L.fcode s') j = Some rest /\
-    L.execq (L.log (L.sg s')) = L.execq (L.log (L.sg s)).
-Proof. exact c09_xqueue_is_c04_foreign. Qed.
-Print Assumptions L2a_xqueue_is_foreign_microsteps.
-
-(* C09's run invariant pend_inv (C09_queued_task_wakes) is C04's NoStall (C04_no_stall) read at
-   the poll; so it holds at every poll of EVERY schedule of C04's system *)
-Theorem L2a_pend_inv_is_nostall : forall sh s e p, Rq s e p -> L.midwake sh s = false ->
-  (LP.NoStall sh s <-> PP.pend_inv e p).
-Proof. exact pend_inv_is_nostall. Qed.
-Print Assumptions L2a_pend_inv_is_nostall.
-
-Theorem L2a_pend_inv_all_schedules : forall sh scr prefix later progs s e p,
-  L.wake_ok sh = true -> LP.reach sh scr (L.init prefix later progs) s ->
-  Rq s e p -> L.midwake sh s = false -> PP.pend_inv e p.
-Proof. exact c04_reach_pend_inv. Qed.
-Print Assumptions L2a_pend_inv_all_schedules.
-
-(* ---- L2b: the timer channel of C09's iteration is C06's TimerQueue -------------------------- *)
-(* due tq := the timerfd is armed for an instant that has passed (the kernel's timerfd contract,
-   as a definition); env_of w rd tq := the environment C09's poll sees: eventfd counter w, timerfd
-   readable iff due tq, other descriptors rd *)
-Theorem L2b_env_def : forall w rd tq,
-  P.k_wake (env_of w rd tq) = w /\ P.k_rd (env_of w rd tq) = rd /\
-  ((0 < P.k_texp (env_of w rd tq))%N <-> exists x, T.armed tq = Some x /\ (x <= T.clk tq)%Z).
-Proof. intros w rd tq. split; [reflexivity|]. split; [reflexivity|]. apply env_of_texp. Qed.
-Print Assumptions L2b_env_def.
-
-(* HEADLINE: C09's last sentence and C06's last sentence as one statement.  In any combined state
-   (poller reached by any history, the loop's two channels registered, functor queue p under the
-   queue invariant, timer queue reached by any history): the next poll blocks IFF no functor
-   wake-up is pending (counter 0), no armed instant of the timerfd has passed, and no other
-   registered channel with interest is ready; then no functor is queued, and a registered timer
-   means the timerfd is armed for a later instant no later than max(earliest deadline, last arming
-   + 100 us floor); a registered timer whose deadline has passed keeps the poll from blocking. *)
-Theorem L2_next_poll_blocks_iff : forall st sp wc tc wfd tfd w rd (p : list nat) tq,
-  PQ.reachEC st sp -> PP.loop_channels sp wc tc wfd tfd -> (p <> [] -> (0 < w)%N) -> tq_reach tq ->
-  let e := env_of w rd tq in
-  (P.ep_full st (P.env_ready wfd tfd e) = [] <-> (w = 0%N /\ ~ due tq /\ PP.others_quiet sp wc tc e)) /\
-  (P.ep_full st (P.env_ready wfd tfd e) = [] ->
-     p = [] /\
-     forall d a r, T.timers tq = (d, a) :: r ->
-       exists x, T.armed tq = Some x /\ (T.clk tq < x <= Z.max d (T.arm_at tq + floor_val))%Z) /\
-  (forall d a, In (d, a) (T.timers tq) -> (d <= T.clk tq)%Z -> (T.arm_at tq + floor_val <= T.clk tq)%Z ->
-     P.ep_full st (P.env_ready wfd tfd e) <> []).
-Proof. exact combined_blocks_iff. Qed.
-Print Assumptions L2_next_poll_blocks_iff.
-
-Theorem L2_next_poll_blocks_iff_poll : forall st sp wc tc wfd tfd w rd (p : list nat) tq choice,
-  PL.reachPC st sp -> PP.loop_channels sp wc tc wfd tfd -> (p <> [] -> (0 < w)%N) -> tq_reach tq ->
-  let e := env_of w rd tq in
-  let blocks := P.pp_step_current st (P.Poll (P.env_ready wfd tfd e) choice) = P.Ok (st, []) in
-  (blocks <-> (w = 0%N /\ ~ due tq /\ PP.others_quiet sp wc tc e)) /\
-  (blocks ->
-     p = [] /\
-     forall d a r, T.timers tq = (d, a) :: r ->
-       exists x, T.armed tq = Some x /\ (T.clk tq < x <= Z.max d (T.arm_at tq + floor_val))%Z) /\
-  (forall d a, In (d, a) (T.timers tq) -> (d <= T.clk tq)%Z -> (T.arm_at tq + floor_val <= T.clk tq)%Z ->
-     ~ blocks).
-Proof. exact combined_blocks_iff_poll. Qed.
-Print Assumptions L2_next_poll_blocks_iff_poll.
-
-(* a poll that has something to return returns at least one channel: an iteration that does not
-   block dispatches something, whatever else is registered *)
-Theorem L2_unblocked_poll_returns_a_channel : forall st sp ready choice,
-  PQ.reachEC st sp -> P.ep_full st ready <> [] ->
-  exists st' act, P.ep_step_current st (P.Poll ready choice) = P.Ok (st', act) /\ act <> [].
-Proof. exact poll_returns_something. Qed.
-Print Assumptions L2_unblocked_poll_returns_a_channel.
-
-(* HEADLINE (progress).  combined_iter = C09's whole iteration (epoll back-end of the current
-   tree) in the environment env_of w rd tq, where the timer channel's read callback, if it ran, is
-   C06's fire on tq.  If only the loop's own channels can be ready and the poll does not block,
-   the iteration succeeds and makes progress: a callback runs (handleRead of the wake-up channel
-   iff w > 0, TimerQueue::handleRead iff the timerfd is due); every functor queued at poll time
-   runs, in order; the wake-up counter is consumed (a stale wake-up is not repeated); a due timerfd
-   makes handleRead run the earliest timer, or - stale arming - re-arm for exactly
-   max(earliest, now + floor); a timerfd that is not due leaves the timer queue untouched. *)
-Theorem L2_unblocked_iteration_progress :
-  forall h hq fb runs user qw wc tc wfd tfd st sp w rd p tq choice script,
-  PQ.reachEC st sp -> PP.loop_channels sp wc tc wfd tfd ->
-  PP.others_quiet sp wc tc (env_of w rd tq) ->
-  runs wc = true -> runs tc = true -> (forall k, h wc k = []) -> (forall k, h tc k = []) ->
-  tq_reach tq ->
-  (forall log, (forall ck, In ck log -> ck = (wc, P.CbRead) \/ ck = (tc, P.CbRead)) ->
-     P.functors_ok fb sp (p ++ flat_map (fun ck => hq (fst ck) (snd ck)) log)) ->
-  (0 < w)%N \/ due tq ->
-  exists st' e' p' tq' act log ran ev,
-    combined_iter h hq fb runs user qw wc tc wfd tfd st w rd p tq choice script
-      = Some (st', e', p', tq', (act, log, ran, ev)) /\
-    PQ.reachEC st' (P.spec_run sp (P.functors_ops fb ran)) /\
-    log <> [] /\
-    (In (wc, P.CbRead) log <-> (0 < w)%N) /\ (In (tc, P.CbRead) log <-> due tq) /\
-    ran = p ++ flat_map (fun ck => hq (fst ck) (snd ck)) log /\
-    p' = P.functors_queued fb ran /\
-    P.k_wake e' = ((if qw true false true
-                    then N.of_nat (length (flat_map (fun ck => hq (fst ck) (snd ck)) log)) else 0)
-                   + (if qw true true true then N.of_nat (length p') else 0))%N /\
-    (due tq ->
-       T.fire tq script = T.Ok (tq', ev) /\
-       forall d a r x, T.timers tq = (d, a) :: r -> T.armed tq = Some x ->
-         ((d <= T.clk tq)%Z /\
-            exists o t, T.hget a (T.heap tq) = Some o /\ In (T.ERun (T.o_seq o) d (T.clk tq) t) ev) \/
-         ((T.clk tq < d)%Z /\ (x < d)%Z /\ TH.rlog ev = [] /\ T.timers tq' = T.timers tq /\
-            T.clk tq' = T.clk tq /\ T.armed tq' = Some (Z.max d (T.clk tq + floor_val)))) /\
-    (~ due tq -> tq' = tq /\ ev = []).
-Proof. exact combined_progress. Qed.
-Print Assumptions L2_unblocked_iteration_progress.
-
-Theorem L2b_combined_iter_def : forall h hq fb runs user qw wc tc wfd tfd st w rd p tq choice script,
-  combined_iter h hq fb runs user qw wc tc wfd tfd st w rd p tq choice script =
-  match P.loop_iter_full_env P.ep P.ep_step_current h hq fb runs (PP.effects_current wc tc user) qw wfd tfd
-          st (env_of w rd tq) p choice with
-  | P.Ok (st', e', p', (act, log, ran)) =>
-      if timer_fired tc log then
-        match T.fire tq script with
-        | T.Ok (tq', ev) => Some (st', e', p', tq', (act, log, ran, ev))
-        | _ => None
-        end
-      else Some (st', e', p', tq, (act, log, ran, []))
-  | _ => None
-  end.
-Proof. reflexivity. Qed.
-Print Assumptions L2b_combined_iter_def.
-
-(* what C09 assumes of the timer callback's effect on the environment (unread expirations := 0)
-   is what C06's handleRead does: readTimerfd consumes the expiration, and at the end of
-   handleRead a registered timer means the timerfd is armed for a later instant *)
-Theorem L2b_timer_read_agrees : forall tq script tq' ev,
-  (due tq -> T.armed (T.consume tq) = None) /\
-  (tq_reach tq -> T.fire tq script = T.Ok (tq', ev) -> T.timers tq' <> [] -> ~ due tq').
-Proof. intros. split; [apply consume_clears|apply fire_leaves_not_due]. Qed.
-Print Assumptions L2b_timer_read_agrees.
-
-(* ---- non-vacuity --------------------------------------------------------------------------- *)
-Module W := Muduo.C09_Witness.
-
-(* the loop's constructor state (timer channel 0 on fd 3, wake-up channel 1 on fd 4) *)
-Lemma l2_ex_loop_state : exists st,
-  PQ.reachEC st (P.spec_run P.spec0 W.w_loop_init) /\
-  PP.loop_channels (P.spec_run P.spec0 W.w_loop_init) 1 0 4 3 /\
-  forall e, PP.others_quiet (P.spec_run P.spec0 W.w_loop_init) 1 0 e.
-Proof.
-  destruct (PQ.run_reachEC W.w_loop_init P.ep_init P.spec0 PQ.reachEC_init W.w_loop_init_ok) as [st [outs [E R]]].
-  exists st. split; [exact R|]. split.
-  - split; [discriminate|]. split; exists false; vm_compute; reflexivity.
-  - intros e c s H _ _ N1 N0. destruct c as [|[|c]]; [contradiction|contradiction|]. cbn in H. discriminate.
-Qed.
-
-(* a timer queue with one timer (deadline 5000, added at clock 1000): not due; after 5 ms: due *)
-Definition l2_tq_ops : list T.op := [T.Cb (T.CAdd 5000 (-1) 16)].
-Definition l2_tq_ops2 : list T.op := [T.Cb (T.CAdd 5000 (-1) 16); T.Cb (T.CTick 5000)].
-
-Example l2_ex_blocked : exists st sp tq,
-  PQ.reachEC st sp /\ PP.loop_channels sp 1 0 4 3 /\ tq_reach tq /\ T.timers tq <> [] /\
-  P.ep_full st (P.env_ready 4 3 (env_of 0 (fun _ => 0%N) tq)) = [] /\
-  exists x, T.armed tq = Some x /\ (T.clk tq < x)%Z.
-Proof.
-  destruct l2_ex_loop_state as (st & HR & HL & HQ).
-  destruct (T.run (T.init 1000) l2_tq_ops) as [[tq evs]| |] eqn:E; try (vm_compute in E; discriminate).
-  assert (Hreach : tq_reach tq) by (exists 1000%Z, l2_tq_ops, evs; exact E).
-  vm_compute in E. injection E as <- _.
-  exists st, (P.spec_run P.spec0 W.w_loop_init). eexists. split; [exact HR|]. split; [exact HL|].
-  split; [exact Hreach|]. split; [discriminate|].
-  split.
-  - apply (combined_blocks_iff st _ 1 0 4 3 0%N (fun _ => 0%N) [] _ HR HL (fun H => False_ind _ (H eq_refl)) Hreach).
-    split; [reflexivity|]. split; [|apply HQ]. intros (x & Hx & Hle). vm_compute in Hx. injection Hx as <-.
-    vm_compute in Hle. apply Hle. reflexivity.
-  - eexists. split; [vm_compute; reflexivity|]. vm_compute. reflexivity.
-Qed.
-
-Example l2_ex_due : exists tq, tq_reach tq /\ due tq /\ T.timers tq <> [].
-Proof.
-  destruct (T.run (T.init 1000) l2_tq_ops2) as [[tq evs]| |] eqn:E; try (vm_compute in E; discriminate).
-  assert (Hreach : tq_reach tq) by (exists 1000%Z, l2_tq_ops2, evs; exact E).
-  vm_compute in E. injection E as <- _. eexists. split; [exact Hreach|]. split.
-  - eexists. split; [vm_compute; reflexivity|]. vm_compute. discriminate.
-  - discriminate.
-Qed.
-
-(* the hypotheses of L2a are inhabited: C09_Witness' iteration "the timer callback queues functor
-   7, which queues functor 8" against a C04 state with event 9 (script: queue 7) ready *)
-Definition l2_q (n : nat) : list nat := match n with 9 => [7] | 7 => [8] | _ => [] end.
-Definition l2_scr : L.scripts := fun n => map L.AQueue (l2_q n).
-Definition l2_s : L.st := L.mkSt (L.mkG [] 0 [9] false false true []) L.LPoll [] [] [].
-Definition l2_e : P.kenv := P.mkKenv 0 1 (fun _ => 0%N).
-
-Definition l2_st0 : P.ep :=
-  match P.ep_run_current P.ep_init W.w_loop_init with P.Ok (st, _) => st | _ => P.ep_init end.
-
-Example l2_ex_queue_link : exists st' e' act log,
-  P.loop_iter_full_env P.ep P.ep_step_current (fun _ _ => []) W.hq_ex W.fb_ex W.all_run
-    (PP.effects_current 1 0 (fun _ _ e => e)) (L.wake Gen_C04.gen_shape) 4 3 l2_st0 l2_e [] []
-    = P.Ok (st', e', [8], (act, log, [7])) /\
-  Rq l2_s l2_e [] /\ pure_q l2_scr l2_q /\
-  (forall i, In i [7] -> snd (W.fb_ex i) = l2_q i) /\
-  flat_map (fun ck => W.hq_ex (fst ck) (snd ck)) log = (match L.evq (L.sg l2_s) with k :: _ => l2_q k | [] => [] end) /\
-  L.poll_ready (L.sg l2_s) = true /\
-  P.k_wake (P.apply_effects (PP.effects_current 1 0 (fun _ _ e => e)) log l2_e) = 0%N /\
-  P.k_wake e' = 1%N.
-Proof.
-  destruct (P.loop_iter_full_env P.ep P.ep_step_current (fun _ _ => []) W.hq_ex W.fb_ex W.all_run
-              (PP.effects_current 1 0 (fun _ _ e => e)) (L.wake Gen_C04.gen_shape) 4 3 l2_st0 l2_e [] [])
-    as [[[[st' e'] p'] [[act log] ran]]| |] eqn:Eit; try (vm_compute in Eit; discriminate).
-  vm_compute in Eit. injection Eit as <- <- <- <- <- <-.
-  eexists _, _, _, _. split; [reflexivity|].
-  split; [constructor; reflexivity|]. split; [intros n; reflexivity|].
-  split; [intros i [<-|[]]; reflexivity|]. repeat split; vm_compute; reflexivity.
-Qed.
-
-(* ========================================================================================== *)
-(* L3. A stream decoder (C18) as the message callback of a connection (C01)                     *)
-(* ========================================================================================== *)
-(* D = C18_Model.  Machine (Link_CodecConn): state = connection + the decoder's control state; the
-   decoder's buffer IS the connection's input buffer.  KRead chunk = POLLIN with the kernel's read
-   returning chunk: Conn_Model's EvReadData chunk, then the message callback = the decode loop on
-   the whole buffered input, then Retrieve of exactly what the loop consumed.  KOp o = any other
-   Conn_Model op (never a second retrieve by the user).                                          *)
-
-(* generic: for any decoder whose loop leaves a suffix of its buffer (it consumes by
-   Buffer::retrieve), every history gives the events and state of C18's chunk-fed decoder on the
-   chunks the kernel delivered, the input buffer is the decoder's unconsumed rest, and the chunks
-   concatenated are the delivered stream *)
-Theorem L3_decoder_on_connection :
-  forall (St Ev : Type) (dstep : St -> list byte -> D.sres St Ev),
-  (forall s b evs s' r, dstep s b = D.SEmit evs s' r -> exists n, r = skipn n b) ->
-  forall s0 mark wc hw ops k e v, forallb kop_wf ops = true ->
-  k_run St Ev dstep (mkK (init mark wc hw) s0 false false) ops = Ok (k, e, v) ->
-  (v, D.mkD (k_dst k) (inb (k_conn k)) (k_ab k) (k_oof k)) = D.feed_all dstep (D.init s0) (chunks_of ops) /\
-  delivered (k_conn k) = concat (chunks_of ops).
-Proof. exact decoder_on_connection. Qed.
-Print Assumptions L3_decoder_on_connection.
-
-(* the connection part of such a history is a Conn_Model history: C01 / C02 / C03 / C13 apply *)
-Theorem L3_history_is_connection_history :
-  forall (St Ev : Type) (dstep : St -> list byte -> D.sres St Ev) ops k k' e v,
-  k_run St Ev dstep k ops = Ok (k', e, v) ->
-  run (k_conn k) (conn_ops St Ev dstep k ops) = Ok (k_conn k', e).
-Proof. exact k_run_is_conn_run. Qed.
-Print Assumptions L3_history_is_connection_history.
-
-(* HEADLINE: ProtobufCodecLite::onMessage on a TcpConnection.  Whatever way the kernel splits the
-   peer's byte stream into reads, whatever else happens on the connection in between (sends,
-   writable events, shutdown, pausing and resuming reads, functors): the messages - and the first
-   error, if any - given to the codec's callbacks are C18's reference decoding of the byte stream
-   received so far ([delivered], = the concatenation of the reads); the input buffer holds exactly
-   the reference's unconsumed rest; retrieved ++ buffered = received; the decode loop never runs
-   out of fuel.  = C01_inbound_stream_trace composed with C18_equals_reference (hence with
-   C18_seg_invariant). *)
-Theorem L3_codec_on_connection :
-  forall (msg : Type) (parse : list byte -> option msg) (tag : list byte) mark wc hw ops k e v,
-  forallb kop_wf ops = true ->
-  k_run unit (D.cevent msg) (D.cstep msg parse tag) (mkK (init mark wc hw) tt false false) ops = Ok (k, e, v) ->
-  let s := delivered (k_conn k) in
-  s = concat (chunks_of ops) /\
-  consumed (k_conn k) ++ inb (k_conn k) = s /\
-  (let '(ms, er, rest) := D.ref_decode msg parse tag (S (length s)) s in
-   v = map (@D.CMsg msg) ms ++ (match er with Some x => [@D.CErr msg x] | None => [] end) /\
-   inb (k_conn k) = rest /\
-   k_ab k = (match er with Some _ => true | None => false end) /\ k_oof k = false).
-Proof. exact codec_on_connection. Qed.
-Print Assumptions L3_codec_on_connection.
-
-Theorem L3_k_step_def : forall (St Ev : Type) (dstep : St -> list byte -> D.sres St Ev) k chunk,
-  k_step St Ev dstep k (KRead chunk) =
-  match step (k_conn k) (EvReadData chunk) with
-  | Ok (c1, e1) =>
-      let (cevs, d') := on_message St Ev dstep (k_dst k) (k_ab k) (k_oof k) (inb c1) in
-      match step c1 (Retrieve (length (inb c1) - length (D.d_buf d'))) with
-      | Ok (c2, e2) => Ok (mkK c2 (D.d_st d') (D.d_abandoned d') (D.d_oof d'), e1 ++ e2, cevs)
-      | Rejected => Rejected
-      | Fault => Fault
-      end
-  | Rejected => Rejected
-  | Fault => Fault
-  end.
-Proof. reflexivity. Qed.
-Print Assumptions L3_k_step_def.
-
-(* non-vacuity: one frame (tag "RPC0", payload 01 02) cut after 5 bytes - inside the tag - with a
-   send in between: nothing after the first read, the message after the second, buffer empty *)
-Definition l3_tag : list byte := ["R"; "P"; "C"; "0"]%byte.
-Definition l3_payload : list byte := [x01; x02].
-Definition l3_frame : list byte := D.encode l3_tag l3_payload.
-Definition l3_ops : list kop :=
-  [KOp Establish; KRead (firstn 5 l3_frame); KOp (Send [x07] AcceptAll); KRead (skipn 5 l3_frame)].
-
-Example l3_ex_run : exists k e,
-  k_run unit (D.cevent (list byte)) (D.cstep (list byte) Some l3_tag) (mkK (init 100 false false) tt false false) l3_ops
-    = Ok (k, e, [D.CMsg l3_payload]) /\
-  forallb kop_wf l3_ops = true /\ inb (k_conn k) = [] /\ length (consumed (k_conn k)) = 14 /\
-  e = [EvUp; EvMsg 5; EvMsg 14].
-Proof.
-  destruct (k_run unit (D.cevent (list byte)) (D.cstep (list byte) Some l3_tag)
-              (mkK (init 100 false false) tt false false) l3_ops) as [[[k e] v]| |] eqn:E;
-    try (vm_compute in E; discriminate).
-  vm_compute in E. injection E as <- <- <-. eexists _, _. split; [reflexivity|]. vm_compute. auto.
-Qed.
+(* Link_Properties: umbrella of the cross-model links; the statements live in
+   Link_Properties_L1.v (Conn over Buffer), Link_Properties_L2.v (loop iteration over C04 / C06),
+   Link_Properties_L3.v (codec over connection), which are independent of each other. *)
+From Muduo Require Export Link_Properties_L1 Link_Properties_L2 Link_Properties_L3.
